@@ -41,6 +41,11 @@ def r1_no_bypass(ctx):
     if not val:
         return
     entry = q.loop_entry(b, h, blocks)
+    # every transaction's inputs are walked: no path to Ok goes around the input loop (an early `return Ok(())` for some kind of transaction spends its
+    # inputs without running any covenant — create_next_state removes the inputs of every accepted transaction)
+    oks_ = [bb for bb, e in q.result_blocks(b)["Ok"]]
+    around = b.reachable(0, removed=[h])
+    r.check(not any(o in around for o in oks_), "loop/every-path", "Ok is reached only through the loop over the inputs", "check_tx_validity can return Ok without walking the inputs (bb%s): those inputs are spent without any covenant being run" % [o for o in oks_ if o in around], b.where(h))
     cache = [(bi, e) for bi, e in q.call_exprs(b, "HashSet::contains", "contains") if "good_scripts" in sig(q.novers(e)) or "covhash" in sig(e)]
     # (a) with the cache forced to miss, no bypass may remain
     f = force(b, {e: 0 for bi, e in cache})
